@@ -399,6 +399,33 @@ def c05(tier, rng):
            "then random walks restricted to publishes with interleaved other operations.")
 def c06(tier, rng):
     out = []
+    # acknowledgements arriving glued, the read ending one byte into the second one
+    for q in (1, 2):
+        st = S()
+        a_, b_ = st.pub(q=q, payload=b"A"), st.pub(q=q, payload=b"B")
+        st.poll(a_), st.poll(b_)
+        first = M.puback(1) + M.puback(2) if q == 1 else M.pubrec(1) + M.pubrec(2)
+        for cut in (5, 4 + 2):
+            pass
+        st.deliver(first[:5]), st.deliver(first[5:]), st.poll(a_), st.poll(b_)
+        if q == 2:
+            second = M.pubcomp(2) + M.pubcomp(1)
+            st.deliver(second[:5]), st.deliver(second[5:]), st.poll(a_), st.poll(b_)
+        out.append(case("glued-acks-q%d" % q, st.script(), ["glued"]))
+    for q in (1, 2):
+        st = S()
+        a_ = st.pub(q=q, payload=b"A")
+        st.poll(a_)
+        st.ev("run")
+        if q == 2:
+            st.deliver(M.pubrec(1)), st.poll(a_), st.ev("run")
+            st.deliver(M.pubcomp(1))
+        else:
+            st.deliver(M.puback(1))
+        st.poll(a_), st.ev("run")
+        b_ = st.pub(q=1, payload=b"B")
+        st.poll(b_), st.deliver(M.puback(2)), st.poll(b_)
+        out.append(case("run-again-q%d" % q, st.script(), ["run-again"]))
     for q in (1, 2):
         for n_ in (119, 120, 200):
             st = S()
@@ -511,6 +538,16 @@ def k1_case():
            "identifiers, dropped and lagging streams, unsubscribe; then random walks with streams.")
 def c07(tier, rng):
     out = [k1_case()]
+    for r, form in ((146, "short3"), (146, "long"), (0, "auto")):
+        st = S()
+        a_ = st.sub(b"a")
+        st.poll(a_), st.deliver(M.suback(1)), st.poll(a_), st.ev("tostream %d" % a_)
+        st.deliver(M.publish(b"a", b"first", 2, 7, ps=[(11, 1)])), st.deliver(M.pubrel(7, r, (), form))
+        st.deliver(M.publish(b"a", b"second", 2, 7, ps=[(11, 1)])), st.deliver(M.pubrel(7))
+        st.deliver(M.publish(b"a", b"third", 2, 7, dup=1, ps=[(11, 1)]))
+        for _ in range(4):
+            st.ev("pollstream %d" % a_)
+        out.append(case("released-with-reason-%d-%s" % (r, form), st.script(), ["pubrel-reason"]))
     for dropped in (0, 1, 2):
         st = S()
         subs_ = [st.sub(b"s%d" % k) for k in range(4)]
@@ -637,6 +674,20 @@ def c07(tier, rng):
 def c08(tier, rng):
     import itertools
     out = []
+    for cut in (1, 2):
+        st = S()
+        stream = M.publish(b"t", b"x", 1, 9) + M.publish(b"t", b"y" * 200, 2, 10) + M.pubrel(10) + M.publish(b"t", b"z", 1, 11)
+        k1 = len(M.publish(b"t", b"x", 1, 9)) + cut
+        st.deliver(stream[:k1]), st.deliver(stream[k1:])
+        out.append(case("glued-inbound-cut%d" % cut, st.script(), ["glued"]))
+    for rm in (1, 2):
+        st = S(connack_props=[(33, rm)])
+        for i_ in (1, 2, 3, 4):
+            st.deliver(M.publish(b"t", b"m%d" % i_, 2, i_))
+        for i_ in (2, 1, 4, 3):
+            st.deliver(M.pubrel(i_))
+        st.deliver(M.publish(b"t", b"q1", 1, 9))
+        out.append(case("inbound-qos2-beyond-R%d" % rm, st.script(), ["rm-inbound"]))
     for q in (1, 2):
         st = S(connect_opts="tam=10")
         st.deliver(M.publish(b"t", b"x", q, 9, ps=[(2, 0)]))
@@ -715,6 +766,18 @@ def c08(tier, rng):
 def c09(tier, rng):
     import itertools
     out = []
+    for budget in (0, 1, 3):
+        st = S(connect_opts="sei=1000")
+        a = st.sub(b"a")
+        st.poll(a), st.deliver(M.suback(1)), st.poll(a), st.ev("tostream %d" % a)
+        st.deliver(M.publish(b"a", b"m5", 2, 5, ps=[(11, 1)]))
+        st.ev("werr %d" % budget)
+        st.deliver(M.pubrel(5))                                           # its PUBCOMP cannot be written
+        st.ev("markdisc 5"), st.ev("reconnect"), st.ev("connect sei=1000"), st.deliver(M.connack(1)), st.ev("run")
+        st.deliver(M.publish(b"a", b"n5", 2, 5, ps=[(11, 1)])), st.deliver(M.pubrel(5))
+        for _ in range(3):
+            st.ev("pollstream %d" % a)
+        out.append(case("pubcomp-fails-then-reuse-%d" % budget, st.script(), ["reconnect", "ackfault"]))
     for budget in (0, 2):
         st = S(connect_opts="sei=1000")
         a = st.sub(b"a")
@@ -977,6 +1040,15 @@ def c10(tier, rng):
 def c11(tier, rng):
     out = []
     st = S()
+    first = st.sub(b"first")
+    st.poll(first), st.deliver(M.suback(1)), st.poll(first), st.ev("tostream %d" % first)
+    st.ev("spin 65533 5000 pub1 1")
+    st.pid_ctr, st.sub_ctr = 65535, 2
+    again = [st.sub(b"second"), st.sub(b"third"), st.unsub(b"x"), st.sub(b"fourth")]
+    for i_ in again:
+        st.poll(i_)
+    out.append(case("subscribe-after-a-lap", st.script(), ["wrap", "subid"], release=False))
+    st = S()
     st.ev("clone 0 1"), st.ev("clone 1 2")
     hs = [0, 1, 0, 2, 1, 2, 0]
     subs_ = [st.sub(b"s%d" % k, handle=h) for k, h in enumerate(hs)]
@@ -1193,6 +1265,30 @@ def c12_extra():
         n2, n3 = s.pub(q=1, topic=b"t", payload=b"o"), s.pub(q=1, topic=b"t", payload=b"p")
         s.poll(n2), s.poll(n3), s.poll(n2), s.poll(n3)  # exactly one slot came back
         out.append(case("oversize-keeps-quota-R%d" % R, s.script(), ["oversized", "quota"]))
+    for sp_ in (0, 1):
+        s = S(run=False)
+        s.evs = ["connect", "deliver " + hx(M.connack(sp_, 0, [(39, 40)])), "run"]
+        fits, big0, big1 = s.pub(q=0, topic=b"t", payload=b"x" * 34), s.pub(q=0, topic=b"t", payload=b"x" * 35), s.pub(q=1, topic=b"t", payload=b"x" * 60)
+        for i in (fits, big0, big1):
+            s.poll(i)
+        for i in (fits, big0, big1):
+            s.poll(i)
+        out.append(case("limit-session-present-%d" % sp_, s.script(), ["session-present"]))
+    for others in (1, 2):
+        s = S(connack_props=[(39, 40)])
+        inflight = [s.pub(q=1, topic=b"t", payload=b"p%d" % k) for k in range(others)] + [s.unsub(b"u")]
+        for i in inflight:
+            s.poll(i)
+        bigsub = s.sub(b"a/very/long/topic/filter/that/does/not/fit/into/forty/bytes")
+        s.poll(bigsub), s.poll(bigsub)
+        for i in inflight[:-1]:
+            s.deliver(M.puback(s.ops[i]["pid"]))
+        s.deliver(M.unsuback(s.ops[inflight[-1]]["pid"]))
+        for i in inflight:
+            s.poll(i)
+        small = s.sub(b"ok")
+        s.poll(small), s.deliver(M.suback(s.ops[small]["pid"])), s.poll(small)
+        out.append(case("oversized-subscribe-among-%d" % others, s.script(), ["oversized", "in-flight"]))
     return out
 
 
@@ -1222,6 +1318,21 @@ def session_states():
            "outstanding, streams open, mid-QoS 2}; every CONNACK reason, AUTH, EOF for connect().")
 def c13(tier, rng):
     out = []
+    for n_in in (100, 400):
+        for what in ("disc", "handles"):
+            st = S()
+            st.ev("hold")
+            for k in range(n_in):
+                st.deliver(M.publish(b"t", b"busy %d" % k, 1, 1 + k % 60000))
+            if what == "disc":
+                d = st.disc()
+                st.poll(d)
+            else:
+                st.ev("drophandle 0")
+            st.ev("eof"), st.ev("release")
+            c_ = case("busy-reader-%s-%d" % (what, n_in), st.script(), ["fairness"], release=True)
+            c_["model"] = False
+            out.append(c_)
     for k in (0, 1, 5):
         out.append(case("connect-zerowrite-%d" % k, "werr0 %d ; connect ; deliver %s" % (k, hx(M.connack())), ["connect", "zerowrite"]))
     for what in ("ping", "pub1", "ack1", "ack2", "disc"):
@@ -1476,6 +1587,28 @@ def k2_case():
            "acknowledgement delivered afterwards; dropped streams; then random walks with drops.")
 def c15(tier, rng):
     out = [k2_case()]
+    st = S()
+    w_ = [st.pub(q=1, payload=b"w%d" % k) for k in range(2)]
+    for i_ in w_:
+        st.poll(i_), st.deliver(M.puback(st.ops[i_]["pid"])), st.poll(i_)
+    gone = st.sub(b"gone")                       # packet identifier 3, subscription identifier 1
+    st.poll(gone), st.ev("dropop %d" % gone)
+    u_ = st.unsub(b"u")
+    st.poll(u_), st.deliver(M.unsuback(st.ops[u_]["pid"])), st.poll(u_)
+    live = [st.sub(b"d"), st.sub(b"e"), st.sub(b"f")]   # subscription identifiers 2, 3, 4
+    for i_ in live:
+        st.poll(i_)
+    for i_ in live:
+        st.deliver(M.suback(st.ops[i_]["pid"]))
+    for i_ in live:
+        st.poll(i_), st.ev("tostream %d" % i_)
+    st.deliver(M.suback(st.ops[gone]["pid"]))    # the late SUBACK of the abandoned subscribe
+    for k, i_ in enumerate(live):
+        st.deliver(M.publish(b"x", b"for-%d" % k, 1, 20 + k, ps=[(11, 2 + k)]))
+    st.deliver(M.publish(b"x", b"for-gone", 0, None, ps=[(11, 1)])), st.deliver(M.publish(b"x", b"for-gone-again", 1, 30, ps=[(11, 1)]))
+    for i_ in live:
+        st.ev("pollstream %d" % i_), st.ev("pollstream %d" % i_)
+    out.append(case("late-suback-of-abandoned-subscribe", st.script(), ["dropped-stream", "abandoned"]))
     for kind in ("disc", "pub0", "pub1", "pub2", "sub", "unsub", "ping"):
         st = S()
         other = st.pub(q=1, payload=b"other caller")
@@ -1616,6 +1749,24 @@ def c15(tier, rng):
            "quiescence a sweep must change nothing.")
 def c16(tier, rng):
     out = []
+    for pk, nm in ((M.pingresp(), "pingresp"), (M.puback(1), "puback"), (M.publish(b"a", b"msg", 1, 9, ps=[(11, 1)]), "publish")):
+        for between in ("sweep", "request", "fpoll"):
+            st = S()
+            a = st.sub(b"a")
+            st.poll(a), st.deliver(M.suback(1)), st.poll(a), st.ev("tostream %d" % a)
+            pg, pb = st.ping(), st.pub(q=1)
+            st.poll(pg), st.poll(pb)
+            st.deliver(pk[:1])
+            if between == "sweep":
+                st.ev("sweep")
+            elif between == "fpoll":
+                st.ev("fpoll %d" % pg)
+            else:
+                x = st.ping()
+                st.poll(x)
+            st.deliver(pk[1:])
+            st.poll(pg), st.poll(pb), st.ev("pollstream %d" % a), st.ev("sweep")
+            out.append(case("first-byte-then-%s-%s" % (between, nm), st.script(), ["first-byte"]))
     for where in ("idle", "mid-packet", "between"):
         st = S()
         pg = st.ping()
@@ -1854,4 +2005,29 @@ def c17(tier, rng):
         s.poll(a), s.poll(b2)
         s.deliver(M.puback(s.ops[a]["pid"])), s.deliver(M.pubcomp(s.ops[b2]["pid"])), s.poll(a), s.poll(b2)
         out.append(case("resume-after-%s" % how, s.script(), ["ended-by", how]))
+    for budget in (0, 5, 9, 12):
+        s = S(connect_opts="sei=1000")
+        a, b2, c3 = s.pub(q=1, payload=b"A"), s.pub(q=2, payload=b"B"), s.pub(q=1, payload=b"C")
+        for i in (a, b2, c3):
+            s.poll(i)
+        s.deliver(M.pubrec(s.ops[b2]["pid"])), s.poll(b2)
+        s.ev("markdisc 10"), s.ev("reconnect"), s.ev("connect sei=1000"), s.deliver(M.connack(1))
+        s.ev("werr %d" % budget), s.ev("run")                 # the resumption breaks off after `budget` bytes
+        s.ev("markdisc 10"), resume(s, 1000)
+        for i in (a, b2, c3):
+            s.poll(i)
+        s.deliver(M.puback(s.ops[a]["pid"])), s.deliver(M.pubcomp(s.ops[b2]["pid"])), s.deliver(M.puback(s.ops[c3]["pid"]))
+        for i in (a, b2, c3):
+            s.poll(i)
+        out.append(case("interrupted-resume-%d" % budget, s.script(), ["interrupted"]))
+    for rm2 in (1, 2, 3):
+        s = S(connect_opts="sei=1000", connack_props=[(33, 4)])
+        a, b2, c3 = s.pub(q=1, payload=b"A"), s.pub(q=2, payload=b"B"), s.pub(q=1, payload=b"C")
+        for i in (a, b2, c3):
+            s.poll(i)
+        s.deliver(M.pubrec(s.ops[b2]["pid"])), s.poll(b2)
+        s.ev("markdisc 10"), s.ev("reconnect"), s.ev("connect sei=1000"), s.deliver(M.connack(1, 0, [(33, rm2)])), s.ev("run")
+        for i in (a, b2, c3):
+            s.poll(i)
+        out.append(case("resume-under-R%d" % rm2, s.script(), ["resume-rm"]))
     return out
